@@ -12,6 +12,7 @@ if s.count(old)!=1:
     print("count", s.count(old)); sys.exit(1)
 open(p,'w').write(s.replace(old,new))
 PY
+rm -rf /tmp/evidence-backup && cp -r /verif/evidence /tmp/evidence-backup
 for id in "$@"; do
   out=$(cd /verif && timeout 1500 ./check $id --tier quick 2>&1)
   rc=$?
@@ -21,4 +22,5 @@ for id in "$@"; do
 done
 git -C /repo checkout -- "$file"
 # replays written by mutant runs are not kept
+cp /tmp/evidence-backup/*.json /verif/evidence/ 2>/dev/null
 (cd /verif && git status --short replays | awk '$1=="??"{print $2}' | xargs -r rm -rf)
